@@ -17,6 +17,7 @@ package redis
 import (
 	"errors"
 	"fmt"
+	"math"
 	"strconv"
 	"strings"
 	"time"
@@ -51,6 +52,9 @@ func nextFloatArgument(cmd string, name string, args Arguments) (float64, error)
 	score, err := strconv.ParseFloat(str, 64)
 	if err != nil {
 		return 0, newMissingArgumentError(cmd, name, err)
+	}
+	if math.IsNaN(score) {
+		return 0, newInvalidArgumentError(cmd, name, errors.New(str))
 	}
 	return score, nil
 }
@@ -267,6 +271,9 @@ func nextRangeScoreIndexArgument(cmd string, name string, args Arguments) (float
 	rng, err := strconv.ParseFloat(str[offset:], 64)
 	if err != nil {
 		return 0, false, newInvalidArgumentError(cmd, name, err)
+	}
+	if math.IsNaN(rng) {
+		return 0, false, newInvalidArgumentError(cmd, name, errors.New(str))
 	}
 	return rng, exclusive, nil
 }
